@@ -739,6 +739,12 @@ pub fn dispatch(op: &str, payload: &str, args: &[&str]) -> String {
         "build_media" => return crate::builders::op_build_media(payload),
         "build_master" => return crate::builders::op_build_master(payload),
         "owned_build_media" => return crate::builders::op_owned_build_media(payload),
+        "cmp_holes" => {
+            return match args.first() {
+                Some(i) => crate::builders::op_cmp_holes(payload, i),
+                None => bad(),
+            }
+        }
         "cmp_build_media" => {
             return match args.first().and_then(|a| hexs::decode_text(a)) {
                 Some(other) => crate::builders::op_cmp_build_media(payload, &other),
